@@ -42,7 +42,8 @@ CLAUSES = [
 D24_EXAMPLE = {"rel": [G.pm(ON, 0, None, note=60, vel=64), G.pm(WAIT, 0, 12), G.pm(OFF, 0, None, note=60), G.pm(WAIT, 0, 12)], "by": 2, "bar": None,
                "aliased": 2}
 RULE = ("well-formed sequences with key signatures, pitches near both range limits, x intervals -200..200 incl. 0 and multiples "
-        "of 12; bars with and without key; non-trivial = has notes and interval != 0")
+        "of 12; bars with and without key; every one of the 15 keys as a key-signature event and as a bar key, there and back by 1, -5, 7, 12; "
+        "non-trivial = has notes and interval != 0")
 ASSUMPTIONS = ["models: SCoda.transposeRel / Seq.transposeSeq / Gen.transposeKey, tied by correspondence",
                "range limits 21..108 are read from the generated settings"]
 LO, HI = 21, 108
@@ -122,9 +123,10 @@ def o_transpose(inp):
             kb = [(t, m[KEY]) for t, m in tb if m[TY] == KEYSIG]
             k0 = [(t, m[KEY]) for t, m in tin if m[TY] == KEYSIG]
             if kb != k0:
-                fails.append(("inverse-keys", f"transposing back did not restore the key signatures: {k0} -> {kb}"))
+                fails.append(("inverse-keys", H.Detail(f"transposing back did not restore the key signatures: {k0} -> {kb}", before=k0, after=kb)))
             if b is not None and bar_sig[2] is not None and (b.key_signature is None or KEY_IDX[b.key_signature] != bar_sig[2]):
-                fails.append(("inverse-keys", f"transposing back did not restore the bar's key: {bar_sig[2]} -> {b.key_signature}"))
+                fails.append(("inverse-keys", H.Detail(f"transposing back did not restore the bar's key: {bar_sig[2]} -> {b.key_signature}", bar_before=bar_sig[2],
+                                                       bar_after=None if b.key_signature is None else KEY_IDX[b.key_signature])))
             target.transpose(by)
         except Exception as e:
             fails.append(("inverse", f"raised {type(e).__name__}"))
@@ -152,7 +154,7 @@ def setup(ctx):
         # CLASS: the sequence holds the same Message objects more than once (built by concatenate with a repeated / its own argument).
         # OUTCOME (audit 3, K4): what D24a describes and nothing else — every shared object is visited once per occurrence, so every note
         # ends where `reps` successive transpositions by the interval put it (onset, end, velocity untouched), every key signature is
-        # transposed `reps` times, and the flag says whether one of those visits had to wrap.  Any other damage is reported.
+        # transposed `reps` times.  Any other damage is reported.
         inp = f["input"]
         reps = inp.get("aliased")
         if not reps or inp.get("bar") is not None:
@@ -179,11 +181,8 @@ def setup(ctx):
             if f["clause"] == "image":
                 c, p, on, off, v = ast.literal_eval(re.match(r"^note (\(.*?\)) is not the image", f["detail"]).group(1))
                 return any(c0 == c and on0 == on and v0 == v and visits(p0) == p for (c0, p0, on0, _, v0) in nin)
-            if f["clause"] == "flag":
-                returned = re.match(r"^returned (\w+), expected (\w+)$", f["detail"]).group(1) == "True"
-                for (_, p, _, _, _) in nin:
-                    visits(p)
-                return returned == wrapped[0]
+            # (clause `flag` is no longer booked — audit round 4, B7: on the members of the class the generator draws, no visit wraps, so the
+            # flag is right on /repo and a wrong flag is a violation)
             if f["clause"] == "keys":
                 got = ast.literal_eval(re.search(r"result has (\[.*?\]) \(original keys", f["detail"]).group(1))
                 return [tuple(x) for x in got] == tonic_timeline(tin, reps * by)
@@ -194,19 +193,32 @@ def setup(ctx):
     import json as _json
     import os as _os
     with open(_os.path.join(_os.path.dirname(_os.path.dirname(_os.path.dirname(_os.path.abspath(__file__)))), "known_findings.json")) as _f:
-        _pairs = {tuple(x) for x in next(x for x in _json.load(_f)["findings"] if x["id"] == "D29")["key_interval_pairs"]}
+        _d29 = next(x for x in _json.load(_f)["findings"] if x["id"] == "D29")
+    _pairs = {tuple(x) for x in _d29["key_interval_pairs"]}
+    _respelled = {int(k): v for k, v in (_d29.get("respelled_to") or {}).items()}        # key index -> the key it reads after k, -k (stored data)
+    # the stored outcome is checked against music theory here, not against the library: the key a name is re-spelled to has the same tonic
+    assert all(H.tonic_of_index(a) == H.tonic_of_index(b) and a != b for a, b in _respelled.items())
 
     def kf_d29(f):
-        # a key (of a key-signature event or of the bar) whose transposition there and back is another spelling: recorded (key, interval) pairs
+        # a key (of a key-signature event or of the bar) whose transposition there and back is another spelling.  CLASS: the recorded (key,
+        # interval) pairs.  OUTCOME (audit round 4, B7): WHICH key failed and WHAT it became — every key of the input reads, after k and -k,
+        # exactly as the stored table says (D flat -> C sharp, G flat -> F sharp, C flat -> B when (key, interval) is a recorded pair; itself
+        # otherwise), at its tick, nothing added or lost.  A key that comes back as anything else is reported
         if f["clause"] != "inverse-keys":
             return False
         by = f["input"]["by"]
         r = by % 12 if by % 12 <= 11 else by
         cands = {r, r - 12}
-        keys = [m[9] for m in f["input"]["rel"] if m[0] == KEYSIG and m[9] is not None]
-        if f["input"].get("bar") and f["input"]["bar"][2] is not None:
-            keys.append(f["input"]["bar"][2])
-        return any((k, c) in _pairs for k in keys for c in cands)
+
+        def back(k):
+            return _respelled[k] if (k in _respelled and any((k, c) in _pairs for c in cands)) else k
+        d = H.data_of(f)
+        if "before" in d:
+            pred = [(t, back(k)) for (t, k) in d["before"]]
+            return pred != [tuple(x) for x in d["before"]] and [tuple(x) for x in d["after"]] == pred
+        if "bar_before" in d:
+            return back(d["bar_before"]) != d["bar_before"] and d["bar_after"] == back(d["bar_before"])
+        return False
     ctx.kf_predicates["D29"] = kf_d29
 
 
@@ -215,6 +227,14 @@ def generate(ctx):
     ctx.check("transpose", {"rel": [G.pm(KEYSIG, 0, None, key=12), G.pm(ON, 0, None, note=60, vel=64), G.pm(WAIT, 0, 12), G.pm(OFF, 0, None, note=60)],
                             "by": 1, "bar": None})        # D29: Db + 1 - 1 = C#
     ctx.check("transpose", D24_EXAMPLE)         # the recorded instance of the known finding (message objects shared through concatenate)
+    # every one of the fifteen keys, as a key-signature event and as a bar's key, there and back by a few intervals (audit round 4, B7: D29 says
+    # WHICH keys read differently afterwards — D flat, G flat, C flat — so every other key must be seen to come back as itself)
+    for k in range(15):
+        for by in (1, -5, 7, 12):
+            ctx.count("key-sweep")
+            ctx.check("transpose", {"rel": [G.pm(KEYSIG, 0, None, key=k), G.pm(ON, 0, None, note=60, vel=64), G.pm(WAIT, 0, 12), G.pm(OFF, 0, None, note=60)],
+                                    "by": by, "bar": None})
+            ctx.check("transpose", {"rel": [G.pm(ON, 0, None, note=60, vel=64), G.pm(WAIT, 0, 12), G.pm(OFF, 0, None, note=60)], "by": by, "bar": [4, 4, k]})
     for i in range(ctx.n(400, 12000)):
         pitches = rng.choice([[21, 22, 30], [108, 107, 100], [60, 64, 67], list(range(21, 109, 7)), [21, 108]])
         chans = rng.choice([(0,), (0,), (0, 1), (3,)])
@@ -242,6 +262,9 @@ def generate(ctx):
             # members of D24a's class: the message objects occur two or three times (mid-range pitches, small intervals: no octave wrap)
             arel, _ = G.gen_wf_rel(rng, pitches=[55, 60, 64, 67], channels=(0,), max_tick=60, max_dur=20)
             ctx.count("aliased-objects(D24a class)")
+            # (mid-range pitches and small intervals on purpose: when a LATER visit of a shared object leaves the range although one visit would
+            # not — 60 + 24 + 24 —, transpose also normalises and re-quantises the note lengths; that outcome is D24a's consequence too, but the
+            # predicate has no model of it and does not book it: tried in audit round 4, 9 of 9 such inputs fail `exact` / `inverse` unbooked)
             ctx.check("transpose", {"rel": arel, "by": rng.choice([1, -1, 2, 3, -5, 0, 12]), "bar": None, "aliased": rng.choice([2, 2, 3])})
         ctx.corr("transposeRel", P.op_transposeRel(by, rel))
         if bar is not None:
